@@ -22,7 +22,7 @@ func init() {
 	register(&explore.Prop{
 		ID: "C09", Level: levelMC, Explorer: "E4 schedule explorer (cooperative scheduler + preemption-bounded DFS + happens-before monitor) + deterministic nesting sweep",
 		Instr: true,
-		Rule: "instrumented build (scheduling points inserted automatically before every statement touching package-level state or a Segment/footer object that some thread writes (reads of never-written locations commute; the written set is computed as a fixpoint at run time), and at every object seen from two threads, sync primitives replaced by scheduler-aware shims); shared segment = 130-document two-block segment loaded fresh for every execution, in cold / warm-FST / warm-stored-block / after-an-out-of-range-visit variants; thread bodies from a menu of 12 operations chosen to collide (stored visit in block 0 / block 1 / same block / out of range, first Dictionary of the same / another field, postings walk, two doc-value readers, DocsMatchingTerms, WriteTo, Merge([S,S'])); every unordered pair at preemption bound 2 (pairs with the merge: bound 1 quick / 2 thorough), reader triples at bound 1 (thorough: bound 2), iterative bounding 0,1,2; plus every nesting of a menu operation inside every callback of a stored-field / doc-value visit; " +
+		Rule: "instrumented build (scheduling points inserted automatically before every statement touching package-level state or a Segment/footer object that some thread writes (reads of never-written locations commute; the written set is computed as a fixpoint at run time), and at every object seen from two threads, sync primitives replaced by scheduler-aware shims); shared segment = 130-document two-block segment loaded fresh for every execution, in cold / warm-FST / warm-stored-block / after-an-out-of-range-visit variants; thread bodies from a menu of 13 operations chosen to collide (stored visit in block 0 / block 1 / same block / out of range, first Dictionary of the same / another field, postings walk, two doc-value readers, DocsMatchingTerms, WriteTo, Merge([S,S']) with S first and differing field lists, Merge([T,S]) with S last and identical field lists); element accesses of slices and maps are recorded by backing array, also through local aliases; every unordered pair at preemption bound 2 (pairs with the merge: bound 1 quick / 2 thorough), reader triples at bound 1 (thorough: bound 2), iterative bounding 0,1,2; plus every nesting of a menu operation inside every callback of a stored-field / doc-value visit; " +
 			"oracle: each thread's observation equals its solo observation, no panic, no deadlock, no happens-before race on any recorded (object, field), segment still answers as before; distinct = schedules; non-trivial = schedules with >=1 preemption",
 		Assumptions: []string{"statement-level atomicity; races below statement granularity and inside roaring/vellum/zstd are outside the scheduler's model (the thorough tier adds a free-running -race pass as supplementary, non-exhaustive evidence)", "preemption bound 2, <=3 threads", "instrumenter self-check: the repository's 31 tests pass on the instrumented overlay (bin/setup.sh)"},
 		Budget:      qBudget, Run: runC09,
@@ -55,11 +55,29 @@ func runC09(c *explore.Ctx) {
 		c.R.Error = "C09 environment: " + err.Error()
 		return
 	}
-	menu := c09Menu(other)
-	mergeOp, writeOp := len(menu)-1, len(menu)-2
+	sameSchema, err := build(c09Batch()[:4], 1025)
+	if err != nil {
+		c.R.Error = "C09 environment: " + err.Error()
+		return
+	}
+	otherImg, _, err1 := persist(other)
+	sameImg, _, err2 := persist(sameSchema)
+	if err1 != nil || err2 != nil {
+		c.R.Error = fmt.Sprint("C09 environment: ", err1, err2)
+		return
+	}
+	pt := &c09Partners{}
+	menu := c09Menu(pt)
+	mergeOp2, mergeOp, writeOp := len(menu)-1, len(menu)-2, len(menu)-3
 	fresh := func() segment.Segment {
 		s, err := loadMem(img)
 		if err != nil {
+			panic(err)
+		}
+		if pt.other, err = loadMem(otherImg); err != nil {
+			panic(err)
+		}
+		if pt.sameSchema, err = loadMem(sameImg); err != nil {
 			panic(err)
 		}
 		return s
@@ -85,7 +103,7 @@ func runC09(c *explore.Ctx) {
 	for i := range menu {
 		for j := i; j < len(menu); j++ {
 			b := pairBound
-			if i == mergeOp || j == mergeOp {
+			if i >= mergeOp || j >= mergeOp {
 				b = mergeBound
 			}
 			for wi, w := range warmVariants {
@@ -109,6 +127,7 @@ func runC09(c *explore.Ctx) {
 		for _, i := range []int{0, 3, 6} {
 			for _, j := range []int{1, 4, 8} {
 				scs = append(scs, c09Scenario{fmt.Sprintf("triple[%s|%s|merge]", menu[i].name, menu[j].name), nil, []int{i, j, mergeOp}, 1})
+				scs = append(scs, c09Scenario{fmt.Sprintf("triple[%s|%s|merge2]", menu[i].name, menu[j].name), nil, []int{i, j, mergeOp2}, 1})
 			}
 		}
 	}
@@ -213,7 +232,7 @@ func scheduleString(ch []int) string {
 func scWeight(sc c09Scenario, mergeOp, writeOp int) int {
 	w := 1
 	for _, t := range sc.threads {
-		if t == mergeOp {
+		if t >= mergeOp {
 			w += 10
 		}
 		if t == writeOp {
